@@ -5,6 +5,7 @@ package par2
 
 import (
 	rt "github.com/akalin/gopar/internal/zzverifrt"
+	"strings"
 )
 
 func init() {
@@ -15,6 +16,7 @@ func init() {
 	rt.Register("C18_create_faults", VerifHarness_C18_create_faults)
 	rt.Register("C18_verify_faults", VerifHarness_C18_verify_faults)
 	rt.Register("C18_repair_faults", VerifHarness_C18_repair_faults)
+	rt.Register("C18_index_only_faults", VerifHarness_C18_index_only_faults)
 }
 
 func sameWrites(a, b []fsWrite, what string) {
@@ -165,13 +167,21 @@ func VerifHarness_C18_verify_faults() {
 	if rt.Bool("damage") {
 		s.fs.remove(s.paths[0])
 	}
-	s.fs.nRead = 0
+	if rt.Bool("noVolumes") {
+		// an index-only set: whatever additional listings the code then makes can fail too
+		for _, p := range append([]string(nil), s.fs.order...) {
+			if p != scnIndex && strings.HasSuffix(p, ".par2") {
+				s.fs.remove(p)
+			}
+		}
+	}
+	s.fs.nRead, s.fs.nFind = 0, 0
 	refRes, refErr := verify(s.fs, scnIndex, VerifyOptions{NumGoroutines: 1})
 	rt.Assert(refErr == nil, "fault-free Verify returns a result")
-	nReads := s.fs.nRead
-	s.fs.nRead = 0
+	nReads, nFinds := s.fs.nRead, s.fs.nFind
+	s.fs.nRead, s.fs.nFind = 0, 0
 	if rt.Bool("globFault") {
-		s.fs.failFind = true
+		s.fs.failFindN = 1 + rt.Choice("listing#", nFinds)
 	} else {
 		s.fs.failRead = 1 + rt.Choice("read#", nReads)
 	}
@@ -179,9 +189,40 @@ func VerifHarness_C18_verify_faults() {
 	_, err := verify(s.fs, scnIndex, VerifyOptions{NumGoroutines: 1})
 	rt.Assert(err != nil, "a failed read or directory listing makes Verify return an error (never a result computed from partial data)")
 	rt.Assert(len(s.fs.writes) == before, "Verify writes nothing")
-	s.fs.failFind, s.fs.failRead, s.fs.nRead = false, 0, 0
+	s.fs.failFind, s.fs.failFindN, s.fs.failRead, s.fs.nRead, s.fs.nFind = false, 0, 0, 0, 0
 	res2, err2 := verify(s.fs, scnIndex, VerifyOptions{NumGoroutines: 1})
 	rt.Assert(err2 == nil && res2 == refRes, "re-run after the fault gives the fault-free result")
+}
+
+// An index-only set (every recovery file gone), data intact: Verify and Repair
+// succeed fault-free; a fault at any of their reads or directory listings
+// (however many the code makes in this state) is reported.
+func VerifHarness_C18_index_only_faults() {
+	s := buildArchiveMode([]int{5}, 2, 1, contentDistinct)
+	for _, p := range append([]string(nil), s.fs.order...) {
+		if p != scnIndex && strings.HasSuffix(p, ".par2") {
+			s.fs.remove(p)
+		}
+	}
+	doRepair := rt.Bool("repair")
+	op := func() error {
+		if doRepair {
+			_, err := repair(s.fs, scnIndex, RepairOptions{NumGoroutines: 1, DoubleCheck: rt.Bool("doubleCheck")})
+			return err
+		}
+		_, err := verify(s.fs, scnIndex, VerifyOptions{NumGoroutines: 1})
+		return err
+	}
+	s.fs.nRead, s.fs.nFind = 0, 0
+	rt.Assert(op() == nil, "fault-free operation on an intact index-only set succeeds")
+	nReads, nFinds := s.fs.nRead, s.fs.nFind
+	s.fs.nRead, s.fs.nFind = 0, 0
+	if rt.Bool("globFault") {
+		s.fs.failFindN = 1 + rt.Choice("listing#", nFinds)
+	} else {
+		s.fs.failRead = 1 + rt.Choice("read#", nReads)
+	}
+	rt.Assert(op() != nil, "a failed read or directory listing is reported as an error")
 }
 
 func VerifHarness_C18_repair_faults() {
